@@ -339,7 +339,15 @@ class World:
         rng = self.rng
         cls = self.ns.cls(tx)
         buf = self.bufs[b]
-        inp, py = value if value is not None else self.gen(allow, **genkw).value(tx, b)
+        if value is not None:
+            inp, py = value
+        else:
+            # keep objects model-sized: TLC decodes every object after every step (cost grows with the square of the item count)
+            st = rng.getstate()
+            for md in (genkw.pop("maxdim", 3), 2, 1, 1):
+                inp, py = self.gen(allow, maxdim=md, **genkw).value(tx, b)
+                if _total_size(tx, inp) <= 1500:
+                    break
         placement = placement or rng.choice(["default", "default", "aligned", "packed", "explicit", "context"])
         kw = dict(_buffer=buf)
         if at is not None:
@@ -900,3 +908,20 @@ def _unknown_cap(tx, v):
     if k == "arr":
         return any(_unknown_cap(tx["it"], w) for w in v["it"])
     return False
+
+
+def _total_size(tx, inp):
+    """bytes an input-form value will occupy including the referents it creates"""
+    k = tx["k"]
+    if k in ("ref", "uref"):
+        if inp.get("r") == "new":
+            tt = tx["to"] if k == "ref" else tx["of"][inp["tid"]]
+            return (8 if k == "ref" else 16) + _total_size(tt, inp["v"])
+        return 8 if k == "ref" else 16
+    if k == "struct":
+        return 8 + sum(_total_size(f, w) + 8 for f, w in zip(tx["f"], inp))
+    if k == "arr":
+        return 8 * (2 + 2 * len(tx["sh"])) + sum(_total_size(tx["it"], w) + (0 if X.is_static(tx["it"]) else 8) for w in inp["it"])
+    if k == "str":
+        return 16 + len(inp) + 8
+    return tx["w"]
